@@ -5,7 +5,8 @@ from common import enc_f, dec_f, close, rng
 import estgen
 
 LEAN_MODULE = 'PGM.Properties.C03'
-LEAN_EXTRA = ['PGM.Properties.C03B']
+LEAN_EXTRA = ['PGM.Properties.C03B', 'PGM.Properties.C04G']
+TRANSLATORS = ('py2inf',)     # the three solvers of inference.py regenerated and identified with Model/Solvers.lean (gen_mirrorDescent, ...)
 TRUSTED = ['Lean 4.33 kernel', 'axioms: propext, Classical.choice, Quot.sound',
            'the Frank-Wolfe gap certificate (PGM/Model/Certificate.lean, theorem fw_gap_bound) evaluated in Float by the driver on the table the real code returns',
            'convergence of MD / RDA / IG to a small certificate value is NOT proved: it is decided per generated input by evaluating the proved certificate (a test, labelled)',
